@@ -41,6 +41,11 @@ ENTRIES = [
     M("C11-x-learn-key-depends-on-callback", "C11", "C11.3", ("lerax/algorithm/base_algorithm.py", "        callback = self.consolidate_callbacks(callback)\n", "        callback = self.consolidate_callbacks(callback)\n        if isinstance(callback, CallbackList):\n            reset_key = learn_key\n")),
     V("C11-x-v-branch-on-callback-same-result", "C11", ("lerax/algorithm/base_algorithm.py", "        callback = self.consolidate_callbacks(callback)\n", "        callback = self.consolidate_callbacks(callback)\n        if isinstance(callback, CallbackList):\n            n_observers = len(callback.callbacks)\n        else:\n            n_observers = 1\n")),
     M("O-ppo-overrides-post-collect", ["C03", "C04"], "C03", (PPO, "    def per_step(", "    def post_collect(self, env, policy, step_state, buffer, *, key):\n        return buffer\n\n    def per_step("), error_ok=True),
+    M("W-ppo-clip-coef-from-entropy", ["C08", "C10"], ["C08.9", "C10.7"], (PPO, "        self.clip_coefficient = clip_coefficient", "        self.clip_coefficient = entropy_loss_coefficient")),
+    M("W-sac-tau-from-gamma", "C10", "C10.7", (SAC, "        self.tau = tau", "        self.tau = gamma")),
+    M("W-hopper-ctrl-weight-from-forward", "C17", "C17.15", ("lerax/env/mujoco/hopper.py", "self.ctrl_cost_weight = jnp.array(ctrl_cost_weight)", "self.ctrl_cost_weight = jnp.array(forward_reward_weight)")),
+    M("W-g1-standup-drops-armature", "C20", "C20.5", ("lerax/env/unitree/g1/standup.py", "            armature_scale_range=armature_scale_range,\n", "")),
+    M("W-g1-common-mass-from-armature", "C20", "C20.5", ("lerax/env/unitree/g1/base_g1.py", "        self.mass_scale_range = mass_scale_range", "        self.mass_scale_range = armature_scale_range")),
     M("C03-disc-nomask", "C03", "C03.3", (RB, "discounts = gamma * gae_lambda * next_non_terminals", "discounts = gamma * gae_lambda")),
     M("C03-boot-nomask", "C03", "C03.3", (RB, "gamma * next_values * next_non_terminals - self.values", "gamma * next_values - self.values")),
     M("C03-forward", "C03", "C03.1", (RB, "(deltas, discounts), reverse=True", "(deltas, discounts), reverse=False")),
@@ -432,6 +437,11 @@ ENTRIES += [
     M("C18-reader-other-suffix", "C18", "C18.2", (UT, "        return eqx.tree_deserialise_leaves(\n            path, eqx.filter_eval_shape(cls, *args, **kwargs)\n        )", "        path = Path(path)\n        if path.suffix == \"\":\n            path = path.with_suffix(\".ckpt\")\n        return eqx.tree_deserialise_leaves(\n            path, eqx.filter_eval_shape(cls, *args, **kwargs)\n        )")),
     V("C18-v-reader-adds-eqx-to-bare", "C18", (UT, "        return eqx.tree_deserialise_leaves(\n            path, eqx.filter_eval_shape(cls, *args, **kwargs)\n        )", "        path = Path(path)\n        if path.suffix == \"\":\n            path = path.with_suffix(\".eqx\")\n        return eqx.tree_deserialise_leaves(\n            path, eqx.filter_eval_shape(cls, *args, **kwargs)\n        )")),
     V("C18-v-reader-wraps-path", "C18", (UT, "        return eqx.tree_deserialise_leaves(\n            path, eqx.filter_eval_shape(cls, *args, **kwargs)\n        )", "        path = Path(path)\n        return eqx.tree_deserialise_leaves(\n            path, eqx.filter_eval_shape(cls, *args, **kwargs)\n        )")),
+    M("C18-sac-ctor-isfinite-guard", "C18", "C18.5", ("lerax/policy/sac/mlp.py", "        assert isinstance(env.action_space, Box), \"SAC requires a Box action space\"\n", "        assert isinstance(env.action_space, Box), \"SAC requires a Box action space\"\n        if not jnp.all(jnp.isfinite(env.action_space.low)):\n            raise ValueError(\"unbounded\")\n")),
+    M("C18-mkdir-after-suffix-no-parents", "C18", "C18.1", (UT, "        if not path.parent.exists():\n            path.parent.mkdir(parents=True, exist_ok=True)\n", "        path.parent.mkdir(exist_ok=True)\n")),
+    M("C18-mkdir-unguarded-no-exist-ok", "C18", "C18.1", (UT, "        if not path.parent.exists():\n            path.parent.mkdir(parents=True, exist_ok=True)\n", "        path.parent.mkdir(parents=True)\n")),
+    V("C18-v-mkdir-unguarded", "C18", (UT, "        if not path.parent.exists():\n            path.parent.mkdir(parents=True, exist_ok=True)\n", "        path.parent.mkdir(parents=True, exist_ok=True)\n")),
+    V("C18-v-sac-ctor-static-guard", "C18", ("lerax/policy/sac/mlp.py", "        assert isinstance(env.action_space, Box), \"SAC requires a Box action space\"\n", "        assert isinstance(env.action_space, Box), \"SAC requires a Box action space\"\n        if jnp.ndim(env.action_space.low) > 1:\n            raise ValueError(\"flat boxes only\")\n")),
     M("C18-policy-not-serializable", "C18", "C18.4", ("lerax/policy/base_policy.py", "    Serializable\n):", "    eqx.Module\n):")),
 ]
 
